@@ -16,8 +16,10 @@ import (
 	"io"
 	"os"
 	"runtime"
+	"strconv"
 	"strings"
 	"sync"
+	"syscall"
 	"testing"
 	"time"
 
@@ -70,6 +72,10 @@ type vEvent struct {
 	// Crash: the call panicked inside the commit log, or the log could not be
 	// opened again; the behaviour ends here and St is the last recorded state
 	Crash bool `json:"crash"`
+	// Hang: the call did not return and its goroutine kept burning CPU inside the
+	// commit log (a loop that makes no progress); the behaviour ends here and St is
+	// the last recorded state
+	Hang bool `json:"hang"`
 }
 
 // vTail is a persistent reader that is read by its own goroutine with a live
@@ -163,6 +169,7 @@ type vC01Run struct {
 	readers map[string]*Reader
 	rd      map[string]vRdState
 	dead    bool   // the log crashed or could not be reopened: the behaviour ends
+	hung    bool   // the last call never returned (see watch): the behaviour ends
 	last    vState // state recorded after the previous step
 }
 
@@ -329,6 +336,138 @@ func vFpAt(log []vRec, off int64) string {
 	return ""
 }
 
+// ---- watchdog ---------------------------------------------------------------
+//
+// A call into the commit log that never returns is an observation (obs hang,
+// judged by C01_NoHang), but only when it is certain that the call is not merely
+// slow: the criterion is the CPU time its own OS thread has consumed, which a
+// loaded machine cannot inflate (a step of these small logs needs milliseconds
+// of CPU; a call that is blocked or starved accumulates none).  A call that is
+// still out after the wall-clock limit without having burnt that much CPU ends
+// the test run (harness failure -> inconclusive, exit 2), never a verdict.
+
+func vEnvSeconds(name string, def float64) float64 {
+	if v, err := strconv.ParseFloat(os.Getenv(name), 64); err == nil && v > 0 {
+		return v
+	}
+	return def
+}
+
+// vThreadCPU returns the CPU seconds (user + system) consumed by the OS thread
+// tid of this process, or -1 if it cannot be read.
+func vThreadCPU(tid int) float64 {
+	b, err := os.ReadFile(fmt.Sprintf("/proc/self/task/%d/stat", tid))
+	if err != nil {
+		return -1
+	}
+	s := string(b)
+	i := strings.LastIndexByte(s, ')')
+	if i < 0 {
+		return -1
+	}
+	f := strings.Fields(s[i+1:]) // f[0] = state (field 3); utime, stime = fields 14, 15
+	if len(f) < 13 {
+		return -1
+	}
+	ut, err1 := strconv.ParseInt(f[11], 10, 64)
+	st, err2 := strconv.ParseInt(f[12], 10, 64)
+	if err1 != nil || err2 != nil {
+		return -1
+	}
+	return float64(ut+st) / 100 // USER_HZ
+}
+
+// vWhereIs returns the innermost frame of the watched goroutine that lies in
+// the commit log package and whether that frame is harness code.
+func vWhereIs() (where string, harness bool) {
+	buf := make([]byte, 1<<20)
+	buf = buf[:runtime.Stack(buf, true)]
+	for _, g := range strings.Split(string(buf), "\n\n") {
+		if !strings.Contains(g, "vC01Run).watch.func") {
+			continue
+		}
+		lines := strings.Split(g, "\n")
+		for i := 1; i+1 < len(lines); i += 2 {
+			file := strings.TrimSpace(lines[i+1])
+			if strings.Contains(file, "/server/commitlog/") {
+				if j := strings.IndexByte(file, ' '); j > 0 {
+					file = file[:j]
+				}
+				fn := lines[i]
+				if j := strings.LastIndexByte(fn, '('); j > 0 {
+					fn = fn[:j]
+				}
+				fn = fn[strings.LastIndexByte(fn, '/')+1:]
+				file = file[strings.LastIndexByte(file, '/')+1:]
+				return fn + " " + file, strings.Contains(file, "_test.go")
+			}
+		}
+	}
+	return "", true
+}
+
+// watch runs one call into the commit log on its own OS thread.  It returns ""
+// when the call returned (a panic of the call is re-raised to the caller, with
+// inHarness telling whether it came from harness code) or the place where the
+// call is spinning.
+func (r *vC01Run) watch(call func()) (where string) {
+	var (
+		cpuLimit  = vEnvSeconds("VERIF_HANG_CPU_S", 8)
+		wallLimit = vEnvSeconds("VERIF_HANG_WALL_S", 300)
+		tidCh     = make(chan int, 1)
+		done      = make(chan struct{})
+		pval      interface{}
+		pharness  bool
+	)
+	go func() {
+		defer close(done)
+		runtime.LockOSThread()
+		defer runtime.UnlockOSThread()
+		tidCh <- syscall.Gettid()
+		defer func() {
+			if p := recover(); p != nil {
+				pval, pharness = p, vPanicInHarness()
+			}
+		}()
+		call()
+	}()
+	tid := <-tidCh
+	cpu0 := vThreadCPU(tid)
+	start := time.Now()
+	tick := time.NewTimer(50 * time.Millisecond)
+	defer tick.Stop()
+	for {
+		select {
+		case <-done:
+			if pval != nil {
+				if pharness {
+					panic(pval)
+				}
+				panic(vLogPanic{pval})
+			}
+			return ""
+		case <-tick.C:
+		}
+		tick.Reset(250 * time.Millisecond)
+		cpu := vThreadCPU(tid)
+		if cpu0 >= 0 && cpu >= 0 && cpu-cpu0 >= cpuLimit {
+			w, harness := vWhereIs()
+			if harness {
+				r.t.Fatalf("a step has used %.1f s of CPU in harness code without returning (%s)", cpu-cpu0, w)
+			}
+			return w
+		}
+		if time.Since(start).Seconds() > wallLimit {
+			w, _ := vWhereIs()
+			r.t.Fatalf("a step did not return within %.0f s (%.1f s of CPU used, at %s): blocked or starved, no verdict",
+				wallLimit, cpu-cpu0, w)
+		}
+	}
+}
+
+// vLogPanic wraps a panic raised inside the commit log by a watched call.
+type vLogPanic struct{ p interface{} }
+
 func (r *vC01Run) step(id int, step map[string]interface{}) vEvent {
 	var (
 		a    = vStr(step, "a")
@@ -339,13 +478,23 @@ func (r *vC01Run) step(id int, step map[string]interface{}) vEvent {
 	func() {
 		defer func() {
 			if p := recover(); p != nil {
-				if vPanicInHarness() {
+				if lp, ok := p.(vLogPanic); ok {
+					// raised inside the commit log by a watched call
+					p = lp.p
+				} else if vPanicInHarness() {
 					panic(p)
 				}
 				obs.Err = fmt.Sprintf("panic:%v", p)
 				r.dead = true
 			}
 		}()
+		// calls that write to the log run under the watchdog
+		watched := func(call func()) {
+			if w := r.watch(call); w != "" {
+				obs.Err = "hang:" + w
+				r.dead, r.hung = true, true
+			}
+		}
 		switch a {
 		case "Append":
 			msgs := []*Message{}
@@ -354,11 +503,13 @@ func (r *vC01Run) step(id int, step map[string]interface{}) vEvent {
 				msgs = append(msgs, m)
 				recs = append(recs, ar)
 			}
-			offs, err := r.l.Append(msgs)
-			obs.Err = vErrClass(err)
-			if offs != nil {
-				obs.Ret = offs
-			}
+			watched(func() {
+				offs, err := r.l.Append(msgs)
+				obs.Err = vErrClass(err)
+				if offs != nil {
+					obs.Ret = offs
+				}
+			})
 		case "AppendSet":
 			msgs := []*Message{}
 			base := r.l.NewestOffset() + 1
@@ -376,17 +527,22 @@ func (r *vC01Run) step(id int, step map[string]interface{}) vEvent {
 			if err != nil {
 				panic(err)
 			}
-			offs, err := r.l.AppendMessageSet(ms)
-			obs.Err = vErrClass(err)
-			if offs != nil {
-				obs.Ret = offs
-			}
+			watched(func() {
+				offs, err := r.l.AppendMessageSet(ms)
+				obs.Err = vErrClass(err)
+				if offs != nil {
+					obs.Ret = offs
+				}
+			})
 		case "Truncate":
 			r.stopTails()
 			o := vInt(step, "o")
 			args["o"] = o
 			hadRecords := r.l.OldestOffset() != -1
-			obs.Err = vErrClass(r.l.Truncate(o))
+			watched(func() { obs.Err = vErrClass(r.l.Truncate(o)) })
+			if r.hung {
+				return
+			}
 			emptied := hadRecords && r.l.OldestOffset() == -1
 			for k, v := range r.rd {
 				// (a truncation that empties the log ends every reader, see CommitLog.tla)
@@ -493,6 +649,11 @@ func (r *vC01Run) step(id int, step map[string]interface{}) vEvent {
 		if recs != nil {
 			args["recs"] = recs
 		}
+		if r.hung {
+			// (the spinning goroutine may still write to obs: record a copy made now)
+			return vEvent{T: id, A: a, Args: args, St: r.last, Obs: vObs{A: a, Ret: []int64{}, Err: obs.Err},
+				Rb: []vReadBack{}, Hang: true}
+		}
 		return vEvent{T: id, A: a, Args: args, St: r.last, Obs: obs, Rb: []vReadBack{}, Crash: true}
 	}
 	st := r.state()
@@ -517,7 +678,13 @@ func TestVerifCommitLog(t *testing.T) {
 	sf := vLoadStimuli(t)
 	tw := vOpenTrace(t)
 	defer tw.Close()
+	hangs := 0
 	for _, b := range sf.Behaviours {
+		if hangs >= 3 {
+			// every hang leaves a goroutine spinning for the rest of the process:
+			// three are enough for a verdict, the remaining behaviours are not run
+			break
+		}
 		// index pre-allocation in bytes (0 = the default 10 MiB): small values make index growth reachable
 		VerifIndexBytes = vIntDef(b.Cfg, "idx", 0)
 		run := &vC01Run{
@@ -549,6 +716,12 @@ func TestVerifCommitLog(t *testing.T) {
 			}
 		}
 		run.stopTails()
+		if run.hung {
+			// the call is still running in this log: leave the log and its files alone
+			// (the directory lies in the scratch TMPDIR of the run)
+			hangs++
+			continue
+		}
 		if !run.dead {
 			run.l.Close()
 		}
